@@ -29,6 +29,23 @@ CLAIMED = {
         "Payload alphabet {0,1,2}, frames of 1..2 bytes, <=3 frames per stream in the TLC family; long frames "
         "sampled beyond all pairs of cuts; zero-length frames excluded (consumer discards them).",
         "6/C16"),
+    "C10": (
+        "TLA+ spec Points.tla: Encode/Decode/Diff transcribed per field kind; TLC checks round-trip and diff/merge laws "
+        "for all values and ordered pairs; every case replayed on the real data.Encode/Decode/DiffPoints/MergePoints",
+        "The case analysis of the codec (growth, trailing-tombstone trimming, key normalisation, nil-ness) is transcribed "
+        "into TLA+ and checked exhaustively within the bounds; the same cases run on the real functions for every Go "
+        "element type, with the laws themselves as the verdict.",
+        "Lengths <= 3, 3 map keys, 2 struct fields; scalar values from seeded extreme-value pools; child lists are not "
+        "modelled.",
+        "6/C10"),
+    "C11": (
+        "TLA+ spec Points.tla: total Dec operator evaluated by TLC over the malformed-point alphabet (as-coded variant "
+        "must reach panic); every case replayed on the real Decode/MergePoints/MergeEdgePoints under recover()",
+        "Structured exhaustive enumeration of malformed points (keys, tombstones, lengths, priors) from the spec, run "
+        "on the real decoders for every field kind and element type with extreme values; the transcription's predicted "
+        "outcome is compared as a diagnostic (currently 100% agreement), the verdict is only what C11 states.",
+        "Point lists of length <= 2; values sampled; panics inside reflect are the only crash class observable.",
+        "6/C11"),
     "C12": (
         "TLA+ spec Wire.tla: field-wise wire model, TLC checks Dec(Enc(x))=x for all field patterns; patterns "
         "concretised and replayed through the real protobuf codecs; damage kinds at every offset into all decoders",
